@@ -343,3 +343,55 @@ Theorem C03_query_wf_needs_injective_tokenizers :
        decode_candidates tok_rp tok_agg tok_trait tok_rc tok_suffix v kv = POk q -> query_wf v q = true).
 Proof. exact c03q_tokenizers_needed_refuted. Qed.
 Print Assumptions C03_query_wf_needs_injective_tokenizers.
+
+(* ------------------------------------------------------------------------------------------------------------------
+   End to end (Proofs/C03z.v): from the query string a client sends and the history of well-formed requests that produced the
+   state - no hypothesis on the database, none on the parsed query.  What does not compose away: tok_rc must keep class names
+   apart; completeness keeps in_tree_hyp / forbidden_aggs_hyp (the two recorded corners); the claim needs a new consumer. *)
+(* soundness, completeness away from the corners, claimability at every microversion, limit, summaries, distinctness *)
+From PV Require Import Spec.CandSpec Proofs.Defs Model.Parse Model.DecodeQ Model.DecodeQC.
+From PV Require Import Proofs.C02 Proofs.C02m Proofs.C02c Proofs.C03s Proofs.C03c Proofs.C03q Proofs.C03u Proofs.C03uq Proofs.C03w
+                       Proofs.C03x Proofs.C02s Proofs.C20c Proofs.C13q Proofs.C03z.
+Theorem C03_end_to_end : forall cf l (tok_rp tok_agg tok_trait tok_rc tok_suffix : str -> Z) v kv q a s,
+  reqs_wf l ->
+  (forall x y : str, tok_rc x = tok_rc y -> x = y) ->
+  decode_candidates tok_rp tok_agg tok_trait tok_rc tok_suffix v kv = POk q ->
+  let d := run cf db0 l in
+  candidates v q d = COk a s ->
+  (* (1) soundness *)
+  (forall c, In c a -> exists c', In c' (map (creq_view v) (spec_candidates v q d)) /\ same_creq c c' = true) /\
+  (* (2) completeness, away from the two recorded corners *)
+  (in_tree_hyp q d = true -> forbidden_aggs_hyp q d = true ->
+   forall c', In c' (map (creq_view v) (spec_candidates v q d)) -> exists c, In c a /\ same_creq c c' = true) /\
+  (* (3) every returned candidate can be claimed as returned, by a client of any microversion, for a new consumer;
+         the claim is a legal request, so the state after it is reachable again *)
+  (forall c k proj user ty v', In c a -> find_cons d k = None ->
+     status (snd (step cf d (AllocPut v' (cons_in_at v' c k proj user ty)))) = 204 /\
+     reqs_wf (l ++ [AllocPut v' (cons_in_at v' c k proj user ty)])) /\
+  (* (4) limit=n: the first min(n, |a|) requests, with covering summaries taken from s *)
+  (forall n, qy_limit q = Some n ->
+     16 <= v /\ 1 <= n /\
+     exists kept sums', candidates_limited v q d = COk kept sums' /\
+       kept = firstn (Z.to_nat n) a /\ lenZ kept = Z.min n (lenZ a) /\ incl kept a /\
+       (forall c x, In c kept -> In x (cr_rrs c) ->
+          exists r, find_rp d (rr_rp x) = Some r /\ In (psum_view v q (summary_of d r)) sums') /\
+       incl sums' s) /\
+  (qy_limit q = None -> candidates_limited v q d = COk a s) /\
+  (* (5) every provider named exists and has its summary; one allocation per (provider, class); the requests are pairwise
+         distinct as requests with mappings, and as shown from 1.34; the query is well formed for the version *)
+  (forall c x, In c a -> In x (cr_rrs c) -> exists r, find_rp d (rr_rp x) = Some r /\ In (psum_view v q (summary_of d r)) s) /\
+  (forall c, In c a -> NoDup (rr_keys (cr_rrs c))) /\
+  (34 <= v -> distinct a) /\
+  query_wf v q = true /\ 10 <= v.
+Proof. exact c03_end_to_end. Qed.
+Print Assumptions C03_end_to_end.
+
+(* the handler model does not refuse an accepted query string for its form: with tokenizers that keep suffixes and trait
+   names apart, from 1.10 the answer is that of the search itself *)
+Theorem C03_end_to_end_no_form_error : forall cf l (tok_rp tok_agg tok_trait tok_rc tok_suffix : str -> Z) v kv q,
+  10 <= v <= 39 -> tok_suffix [] = 0 ->
+  (forall x y : str, tok_suffix x = tok_suffix y -> x = y) -> (forall x y : str, tok_trait x = tok_trait y -> x = y) ->
+  decode_candidates tok_rp tok_agg tok_trait tok_rc tok_suffix v kv = POk q ->
+  query_wf v q = true /\ candidates v q (run cf db0 l) = get_by_requests (run cf db0 l) v q.
+Proof. exact c03_end_to_end_no_form_error. Qed.
+Print Assumptions C03_end_to_end_no_form_error.
